@@ -236,7 +236,23 @@ def run_history(ctx, cfg, width, depth, keys, ops, merge_free, truth0=None):
     for idx, op in enumerate(ops):
         if op.kind == "merge":
             other_before = L.snapshot(op.other)
+        before = L.snapshot(sk)
         runner.step(op)
+        # fresh draws, never recycled: a single unit step consumes exactly one draw iff the key's smallest counter is
+        # in the probabilistic range [num_reserved, umax) - whatever entry point performs it
+        single = (op.kind == "add1" or (op.kind == "add" and op.v == 1)
+                  or (op.kind == "ngram" and len(op.key) <= op.n))
+        if single and not tainted:
+            cb = min(before[0][r][bmap[op.key][r]] for r in range(depth))
+            want = 1 if nr <= cb < umax else 0
+            got = 0 if snaps[-1][3] == before[3] else 1
+            if got != want and ok:
+                ok = False
+                ctx.violation({"config": cfg.key(), "width": width, "depth": depth, "ops": [o.json() for o in ops[:idx + 1]],
+                               "counter_before": cb, "rand_ptr_before": before[3], "rand_ptr_after": snaps[-1][3]},
+                              "a unit step in the probabilistic range did not consume exactly one fresh draw "
+                              "(rand_ptr not advanced: the draw will be reused)" if want else
+                              "a unit step in the deterministic range consumed a draw")
         for k, v in op_keys(op):
             truth[k] += v
             total += v
